@@ -198,19 +198,27 @@ theorem startNext_ok {n : Nat} {created : List Nat} {s0 : St} {L : Loop} (hI : L
 
 /-! ### step A: a candidate event time arrives -/
 
+/-- loop variables after the receipt of the candidate time of `h` (before the pre-computation trigger) -/
+def Loop.afterTime (L : Loop) (c : Cfg) (h n : Nat) (y : HS) : Loop :=
+  { L with st := upd L.st h y,
+           deque := if c.outArgs h then L.deque else L.deque ++ [h],
+           received := L.received + 1,
+           pushed := L.pushed ++ [(h, n)] }
+
 theorem stepTime_ok {n : Nat} {created : List Nat} {s0 : St} {L : Loop} (c : Cfg) (hI : LInv n created s0 L) {h : Nat}
     (hc : h ∈ created) (hs : (L.st h).stage = .timeStarted) :
     ∃ y, (L.st h).recvTime = .ok (n, y) ∧
-      let L1 : Loop := { L with st := upd L.st h y,
-                                deque := if c.outArgs h then L.deque else L.deque ++ [h],
-                                received := L.received + 1,
-                                pushed := L.pushed ++ [(h, n)] }
-      LInv n created s0 L1 ∧ mu created L1 + 1 ≤ mu created L ∧ (∀ k, k ≠ h → (L1.st k).stage = (L.st k).stage) := by
+      LInv n created s0 (L.afterTime c h n y) ∧ mu created (L.afterTime c h n y) + 1 ≤ mu created L ∧
+      (L.afterTime c h n y).received = L.received + 1 ∧
+      (∀ k, k ≠ h → ((L.afterTime c h n y).st k).stage = (L.st k).stage) := by
   obtain ⟨y, hy, hys, hyc, hyt, hyst⟩ := recvTime_ok (L.st h) (hI.coh h) hs
   rw [hI.tag h hc] at hy hyt
-  refine ⟨y, hy, ?_, ?_, ?_⟩
-  · have hnd : h ∉ L.deque := by
-      intro hm; have := (hI.dq h hm).2; rw [hs] at this; cases this
+  have hnd : h ∉ L.deque := by
+    intro hm; have := (hI.dq h hm).2; rw [hs] at this; cases this
+  have hmem : ∀ k, k ≠ h → (k ∈ (if c.outArgs h then L.deque else L.deque ++ [h]) ↔ k ∈ L.deque) := by
+    intro k hk; split <;> simp [hk]
+  refine ⟨y, hy, ?_, ?_, rfl, ?_⟩
+  · unfold Loop.afterTime
     refine ⟨hI.nodup, ?_, ?_, ?_, ?_, ?_, ?_, ?_, ?_, ?_, ?_⟩
     · intro k; simp only [upd_apply]; split
       · exact hyc
@@ -275,19 +283,15 @@ theorem stepTime_ok {n : Nat} {created : List Nat} {s0 : St} {L : Loop} (c : Cfg
       split
       · rename_i e; subst e; simp [hys] at hst
       · rename_i e; simp only [e, if_false] at hst; exact hI.stor k hk hst
-  · have hw := wsum_upd (f := wt L)
-      (f' := wt { L with st := upd L.st h y, deque := if c.outArgs h then L.deque else L.deque ++ [h],
-                         received := L.received + 1, pushed := L.pushed ++ [(h, n)] }) hI.nodup hc (by
+  · have hw := wsum_upd (f := wt L) (f' := wt (L.afterTime c h n y)) hI.nodup hc (by
         intro k _ hk
-        simp only [wt, upd_apply, hk, if_false]
-        split <;> simp [hk])
+        simp only [wt, Loop.afterTime, upd_apply, hk, if_false, hmem k hk])
     have h1 : wt L h = 2 := by simp [wt, hs]
-    have h2 : wt { L with st := upd L.st h y, deque := if c.outArgs h then L.deque else L.deque ++ [h],
-                         received := L.received + 1, pushed := L.pushed ++ [(h, n)] } h ≤ 1 := by
-      simp only [wt, upd_same, hys]; split <;> simp
+    have h2 : wt (L.afterTime c h n y) h ≤ 1 := by
+      simp only [wt, Loop.afterTime, upd_same, hys]; split <;> simp
     simp only [mu]
     omega
-  · intro k hk; simp [upd_apply, hk]
+  · intro k hk; simp [Loop.afterTime, upd_apply, hk]
 
 /-! ### step C: a pre-computed out-state arrives -/
 
@@ -374,17 +378,25 @@ theorem procPipe_ok {n : Nat} {created : List Nat} {s0 : St} {L : Loop} (c : Cfg
   | idle => simp [hs, Stage.inFlight] at hf
   | suspended => simp [hs, Stage.inFlight] at hf
   | timeStarted =>
-    obtain ⟨y, hy, hI1, hm1, hst1⟩ := stepTime_ok c hI hc hs
-    simp only [procPipe, hs, hy]
-    split
-    · obtain ⟨L', hL', hI', hm', hr', hst'⟩ := startNext_ok hI1
-      refine ⟨L', hL', hI', by omega, by simp only [hr']; omega, ?_⟩
+    obtain ⟨y, hy, hI1, hm1, hr1, hst1⟩ := stepTime_ok c hI hc hs
+    have hpp : procPipe c created.length L h =
+        if 0 < created.length - (L.afterTime c h n y).received ∧
+            created.length - (L.afterTime c h n y).received < c.cores - 1 ∧ (L.afterTime c h n y).deque ≠ []
+        then startNext (L.afterTime c h n y) else .ok (L.afterTime c h n y) := by
+      simp only [procPipe, hs, hy]; rfl
+    rw [hpp]
+    by_cases htr : 0 < created.length - (L.afterTime c h n y).received ∧
+            created.length - (L.afterTime c h n y).received < c.cores - 1 ∧ (L.afterTime c h n y).deque ≠ []
+    · rw [if_pos htr]
+      obtain ⟨L', hL', hI', hm', hr', hst'⟩ := startNext_ok hI1
+      refine ⟨L', hL', hI', by omega, by omega, ?_⟩
       intro k hk
       have h1 := hst1 k hk
       rcases hst' k with h2 | h2
       · exact Or.inl (by rw [h2, h1])
       · exact Or.inr ⟨by rw [← h1]; exact h2.1, h2.2⟩
-    · exact ⟨_, rfl, hI1, hm1, by simp, fun k hk => Or.inl (hst1 k hk)⟩
+    · rw [if_neg htr]
+      exact ⟨_, rfl, hI1, hm1, by omega, fun k hk => Or.inl (hst1 k hk)⟩
   | outStarted =>
     obtain ⟨y, hy, hI2, hm2, hr2, hst2⟩ := stepOut_ok hI hc hs
     rw [procPipe_out c created.length hI hs hy]
@@ -422,7 +434,7 @@ theorem procWait_ok {n : Nat} {created : List Nat} {s0 : St} (c : Cfg) (w : List
 
 theorem waitOK_iff (created : List Nat) (s : St) (w : List Nat) :
     waitOK created s w = true ↔ w ≠ [] ∧ w.Nodup ∧ ∀ h ∈ w, h ∈ created ∧ (s h).stage.inFlight = true := by
-  simp [waitOK, List.isEmpty_iff]
+  simp [waitOK, List.isEmpty_iff, and_assoc]
 
 /-- while the loop condition holds some pipe of the leg has something in flight: `connection.wait` cannot block
 forever -/
@@ -496,7 +508,8 @@ theorem recvLoop_ok {n : Nat} {created : List Nat} {s0 : St} (c : Cfg) (ws : Lis
         cases w with
         | nil => exact absurd rfl hne
         | cons _ _ => simp
-      rw [mu_seen] at hm1
+      have hm1' : mu created L1 + w.length ≤ mu created L := hm1
+      have hr1' : L.received ≤ L1.received := hr1
       have hrec : recvLoop c created L (w :: ws) = recvLoop c created L1 ws := by
         simp [recvLoop, hlt, hI.inflight_of_lt hlt, hL1]
       rcases ih hI1 hl' with ⟨h1, h2⟩ | ⟨L', rest, h1, h2, h3, h4, h5⟩
